@@ -15,7 +15,7 @@
     several seconds per file; the log rolls over three times and the oldest file is removed by retention.  The
     directory it leaves behind is given explicitly as abstract files ([w19_fs]) and is shown to be (a) what the
     writer model produces and (b) a [good_dir]; the search instance reads across two files. *)
-From SV Require Import Model.Base Model.MetricLine Model.MetricLog Spec.C19Inv Spec.C19Search
+From SV Require Import Model.Base Model.MetricLine Model.MetricLog Spec.C19Inv Spec.C19Search Spec.C19CrashPoint
   Proofs.C19Proofs Proofs.C19SearchProofs Proofs.C19GoodProofs Props.C19.
 Open Scope N_scope.
 
